@@ -48,6 +48,67 @@ CLAIMS["C15"] = dict(
          "checks catch any out-of-buffer access; one fixed operation history shape (not arbitrary histories).",
     technique=E1, design_ref="4 C15")
 
+CLAIMS["C18"] = dict(
+    text="Differential twin-log harnesses: the real vectored appends (shared unfragmented / fragmented, exclusive unfragmented) vs the real "
+         "contiguous appends from an identical symbolic log state; the solver compares resulting offset, raw tail and every term byte "
+         "(symbolic probe) for all payload bytes, term ids, session/stream ids and prior term contents.",
+    note="(tail offset, message length, number of buffers 1..3, split points) are concrete instances (8 quick / 18 thorough: empty buffers, "
+         "split inside a fragment, split on a fragment boundary, term end tripped): a copy whose destination offset and size are both "
+         "symbolic costs 15 M SAT variables on a 256-byte term. Term 256 B, MTU payload 32. Publication::offer_bulk itself is not "
+         "driven (its body is the same guard as offer_opt, decided in C04).",
+    technique=E1 + " (differential)", design_ref="4 C18")
+CLAIMS["C19"] = dict(
+    text="Setter frame conditions of ChannelUriStringBuilder from an arbitrary builder state (every Option field symbolic): each of the 23 "
+         "setters, the reset_* and clear methods sets exactly its own field to exactly the given value and leaves every other field "
+         "bit-identical; illegal values (mtu, term length, term offset, linger, prefix, media, control mode) are rejected without any "
+         "field changing; one chained harness calls all setters once.",
+    note="PARTIAL: build(), ChannelUri::parse, Display and add_session_id are string formatting/parsing and are out of reach of the "
+         "engine here (20-minute probes without verdict); the parameter-name wiring, parse/print identity and 'arbitrary strings never "
+         "panic' are NOT decided by the solver (a native round-trip test exists as supplementary evidence only). Strings <= 9 bytes.",
+    technique=E1, design_ref="4 C19")
+CLAIMS["C01"] = dict(
+    text="Producer side of stream fidelity as inductive single steps on the real appenders: unfragmented / fragmented append, claim + "
+         "commit / abort, for the shared and the exclusive appender, from any tail offset (including tails beyond the term end): "
+         "returned offset, raw tail advance, every header field, flags per fragment, payload bytes (symbolic probe), reserved value, "
+         "exactly one padding frame at the term end, nothing written outside the claimed range, stale-term refusal. Single-session "
+         "reassembly (FragmentAssembler + BufferBuilder) is decided by the c01_reassembly harnesses; publication-level positions by "
+         "the C04 harnesses; the consumer side by C05.",
+    note="Term 256 B, MTU payload 32; each instance has either the tail offset or the message length symbolic (both symbolic costs "
+         "> 10 M SAT variables), message lengths 0..96. 'What was offered is what is delivered' is composed from the producer-side "
+         "frame predicate here and the consumer-side harnesses of C05/C20 - the composition itself is an argument, not a solver query. "
+         "Interleavings of offers with polls: see C03.",
+    technique=E1, design_ref="4 C01")
+CLAIMS["C04"] = dict(
+    text="One offer / try_claim+commit on the real Publication and ExclusivePublication over a real LogBuffers object, for symbolic "
+         "publication limit (any i64), connected flag, closed flag, payload and ids: accepted only if position < limit; refusal kind "
+         "exactly BackPressured / NotConnected / MaxPositionExceeded / PublicationClosed / over-length; refused calls leave log, tail and "
+         "term count unchanged; accepted calls return position-after, advance the tail by the aligned length and put the bytes in the "
+         "log; end of term pads, rotates exactly once and reports AdminAction; the last term reports MaxPositionExceeded.",
+    note="Regime R1: term 512 B, MTU 64, one contiguous 5632-byte log; (elapsed term count, tail offset, message length) are concrete "
+         "instances (14 quick / 22 thorough, term counts 0,1,2,3,4,5,6 and 2^31-1; initial term id i32::MAX-1 so term ids wrap); "
+         "probes for 'unchanged' are fixed concrete positions. Exclusive offers only on partitions reachable with term count multiple "
+         "of 3 (raw-pointer tail access is intractable otherwise); constructor covered for the other partitions. Histories of limit "
+         "updates reduce to this single step because the step starts from an arbitrary limit/flag state.",
+    technique=E1, design_ref="4 C04")
+CLAIMS["C13"] = dict(
+    text="Every DriverProxy request is run against a real ManyToOneRingBuffer and the ring is decoded by an independent decoder written "
+         "from the Aeron control-protocol layout: one record, protocol type code, length, every field equal to the (fully symbolic) "
+         "arguments, strings byte for byte, correlation id fresh, every other byte of the ring unchanged; requests that cannot be "
+         "encoded return Err and leave the ring untouched (boundary lengths per request kind).",
+    note="Ring empty at index 0 (wrapped / full rings belong to C06); string lengths are concrete instances (0,1,3,4,5,8 and the "
+         "boundaries around the 512-byte scratch buffer: 480/481, 484/485, 488/489, 492/493, key 112 + label 372/373/380), bytes symbolic.",
+    technique=E1, design_ref="4 C13")
+CLAIMS["C11"] = dict(
+    text="One duty-cycle step of ClientConductor::on_heartbeat_check_timeouts from an ARBITRARY timer state (all three time bases, now, "
+         "driver heartbeat, driver and inter-service timeouts symbolic up to 2^62 / 2^40): closes exactly when the gap exceeds the "
+         "inter-service timeout, declares the driver dead exactly when its heartbeat is older than the driver timeout at a keep-alive "
+         "check, refreshes the client heartbeat counter to now at every keep-alive check while it is live, updates the time bases, "
+         "reports each timeout once, and refuses requests (writing nothing) after driver death. Boundary instants are covered.",
+    note="Conductor built by struct literal (real DriverProxy/ring/counters buffers, recording fn handlers, empty resource maps); the "
+         "real wall clock and AgentRunner are outside the claim; histories reduce to this step because it starts from any timer state. "
+         "find_* registration timeouts are decided in C09.",
+    technique=E1, design_ref="4 C11")
+
 NOT_YET = "check not built yet in this session (planned in DESIGN.md section 4); no claim is made"
 NA = {}
 
